@@ -9,20 +9,16 @@ property on that output (oracle) and compares it with the model driver `admissio
 (Model/Admission.lean: the call tree of handle_new_connection + transport connect/disconnect with
 a failure continuation for every checked call).
 
-VERIF_C05_MODEL=dirfix compares with the model of the tree that has fixes/D27b applied."""
+VERIF_C05_MODEL=prerepair compares with the model of the tree before repair D27b (5cb555e)."""
 import os
 import vlib
 import admgen
 
-PROPOSED = {
-    admgen.KF_NARROW: "files are 0600 between open() and chmod() when the accept callback chose a mode that does not "
-                      "contain 0600 (D27)",
-    admgen.KF_SOCKDIR: "socket transport: the connection directory stays owned by the peer when the accept callback "
-                       "authorised another owner (D27b, fixes/D27b-ipcs-us-connect-chown-dir.patch)",
-    admgen.KF_DIRCHMOD: "chmod(dir, 0770) failing in handle_new_connection leaves the directory behind and calls "
-                        "rmdir(\"/dev/shm\") (needs an injected failure)",
-    admgen.KF_HDRFAIL: "qb_rb_open_2: cleanup_hdr uses rb->shared_hdr == NULL when the header file cannot be created "
-                       "(D27c, fixes/D27c-rb-open-null-shared-hdr.patch)",
+FINDINGS = {
+    admgen.KF_NARROW: ("narrow-mode-window", "files are 0600 between open() and chmod() when the accept callback chose "
+                       "a mode that does not contain 0600 (D27)"),
+    admgen.KF_DIRCHMOD: ("dir-chmod-failure-leak", "chmod(dir, 0770) failing in handle_new_connection leaves the "
+                         "directory behind and calls rmdir(\"/dev/shm\") (needs an injected failure)"),
 }
 
 
@@ -37,7 +33,8 @@ def run(ctx):
                 "and tear-down calls; outside the four proposed finding classes); accepted clients send 0-3 requests. "
                 "A case is non-trivial if it has a refused client, an accepted+connected client, an auth_set with "
                 "another owner or mode, an injected failure that fired, a client whose real and effective ids differ, "
-                "or a concurrent group; distinct by SHA1 of its op lines")
+                "a failure on creating a ring header file, another owner on the socket transport, or a concurrent "
+                "group; distinct by SHA1 of its op lines")
     ctx.trusted = ["Lean 4.33 kernel; axioms propext, Classical.choice, Quot.sound",
                    "harness/ipc/ipc_adm.c (libc interposition of mkdtemp/mkdir/open/openat/chmod/fchmod/chown/fchown/"
                    "lchown/ftruncate/posix_fallocate/unlink/unlinkat/rmdir/rename inside the harness executable, "
@@ -56,7 +53,7 @@ def run(ctx):
     vlib.lean_prepare(ctx)
     ctx.compile_lib()
     exe = ctx.compile_harness("ipc/ipc_adm.c")
-    margs = ("dirfix",) if os.environ.get("VERIF_C05_MODEL") == "dirfix" else ()
+    margs = ("prerepair",) if os.environ.get("VERIF_C05_MODEL") == "prerepair" else ()
 
     def cover(ops, out):
         tags = admgen.cover(ops, out)
@@ -73,17 +70,21 @@ def run(ctx):
     def report_classes(res):
         for k, (cid, ops, d) in (res.get("known") or {}).items():
             ctx.count("class:" + k)
-            vlib.log("note: case %s falls into proposed finding class %s" % (cid, d))
+            vlib.log("note: case %s falls into finding class %s" % (cid, d))
 
     if ctx.replay:
         report_classes(diff(vlib.read_case_file(ctx.replay), "replay", batch=1))
         return
-    report_classes(diff(vlib.corpus_cases("C05"), "corpus", batch=1))
+    kf_files = {stem for stem, _ in FINDINGS.values()}
+    kf_cases = vlib.corpus_cases("C05", "kf")
+    is_kf = lambda cid: cid.split(".ops")[0] in kf_files
+    # corpus: basic cases + the witnesses of the repaired defects D27b / D27c (they pass now)
+    report_classes(diff(vlib.corpus_cases("C05") + [c for c in kf_cases if not is_kf(c[0])], "corpus", batch=1))
     # finding classes: replay the witnesses; listed in KNOWN_FINDINGS.txt -> KNOWN-FINDING line,
     # otherwise a PROPOSED-FINDING note (the integrator owns KNOWN_FINDINGS.txt)
     listed = {kf["id"]: kf for kf in ctx.known_findings()}
     seen = {}
-    for cid, ops in vlib.corpus_cases("C05", "kf"):
+    for cid, ops in [c for c in kf_cases if is_kf(c[0])]:
         out = vlib.run_batched(ctx, exe, [("k", ops)], batch=1, timeout=150)["k"][0]
         bad = admgen.oracle_all(ops, out)
         new = [t for k, t in bad if k is None]
@@ -92,15 +93,15 @@ def run(ctx):
                           + "\n".join(ops), "finding witness %s: %s" % (cid, new[0]))
         for k, t in bad:
             seen.setdefault(k, t)
-    for k, text in PROPOSED.items():
+    for k, (stem, text) in FINDINGS.items():
         if k in listed:
-            ctx.report_known(listed[k], k in seen, "corpus/C05/kf")
+            ctx.report_known(listed[k], k in seen, "corpus/C05/kf/%s.ops" % stem)
         elif k in seen:
             line = "PROPOSED-FINDING: property=C05 %s %s [%s]" % (k, text, seen[k])
             ctx.warnings.append(line)
             vlib.log(line)
         else:
-            vlib.log("note: proposed finding %s no longer reproduces (repaired?)" % k)
+            vlib.log("note: finding %s no longer reproduces (repaired?)" % k)
         ctx.count("kf-reproduces:" + k, 1 if k in seen else 0)
     if ctx.violations:
         return
